@@ -262,14 +262,19 @@ func (s *sim) makeTx(v *view, spec TxSpec) *txInfo {
 	codeOf := from
 	switch spec.Sign {
 	case 1:
-		signer = s.actors[mod(spec.From+1, len(s.actors))]
+		signer = s.keyed(spec.From + 1)
 		codeOf = signer
 	case 4:
-		codeOf = s.actors[mod(spec.From+1, len(s.actors))]
+		codeOf = s.keyed(spec.From + 1)
 	}
 	// owners of the referenced outputs that are not From need their own programs;
 	// an honest multi-owner spend is not generated, so only From's program is attached.
-	if spec.Sign != 3 {
+	if from.weird != "" {
+		// a script actor: nobody holds a key; the Byzantine client attaches the
+		// matching (malformed) code with arbitrary parameter bytes
+		tx.SetPrograms([]*pg.Program{{Code: from.acc.RedeemScript, Parameter: weirdParam(spec.Sign+len(spec.InSel), uint64(s.txNonce))}})
+		s.c.Fault("spend-from-script-actor:" + from.weird)
+	} else if spec.Sign != 3 {
 		var buf bytes.Buffer
 		signTx := tx
 		if spec.Sign == 5 {
